@@ -615,7 +615,10 @@ func (t *diskTrack) writeBuffered(force bool) error {
 		}
 
 		if valid(t.origin) && int32(ts-value(t.origin)) < 0 {
-			if value(t.origin)-ts < 0x10000 {
+			// if we have gone around 2^31 timestamps, the
+			// timestamp is 2^31 before the origin; anything
+			// much closer is a late packet.
+			if value(t.origin)-ts < 0x40000000 {
 				// late packet before origin, drop
 				continue
 			}
